@@ -810,6 +810,24 @@ fn gen_c04(r: &mut Rng, seed: u64) -> Scenario {
     sc
 }
 
+/// The initial thread has exited (pthread_exit in main) while the process lives on: the leader
+/// is a zombie whose /proc files are empty or cannot be opened. The blamed thread must be a live one.
+fn zombie_leader(r: &mut Rng, b: &mut Built, opts: &mut Opts, tags: &mut Vec<String>) {
+    let n = b.world.threads.len();
+    if n < 2 {
+        return;
+    }
+    if opts.blamed == PID {
+        if opts.crash.is_some() {
+            return;
+        }
+        opts.blamed = tid_of(r.range(1, n as u64 - 1) as usize);
+    }
+    b.world.threads[0].zombie = true;
+    b.world.threads[0].program = Program::Parked;
+    tags.push("zombie-leader".into());
+}
+
 fn gen_c06(r: &mut Rng, seed: u64, idx: u64) -> Scenario {
     // first 512*3 indices sweep every word-aligned page offset of the stack pointer under three limit classes
     let sweep = idx < 1536;
@@ -885,6 +903,9 @@ fn gen_c06(r: &mut Rng, seed: u64, idx: u64) -> Scenario {
         let exe = &b.modules[0];
         opts.crash = Some(crash_spec(r, tid, rsp, exe.base + exe.image.text_off + 0x300));
         tags.push(if ti >= 20 { "crash-late-thread".into() } else { "crash".into() });
+    }
+    if !sweep && r.chance(1, 12) {
+        zombie_leader(r, &mut b, &mut opts, &mut tags);
     }
     let mut sc = simple_dump_scenario("C06", seed, if sweep { "c06-sp-offset-sweep" } else { "c06-random" }, b, opts);
     if !sweep {
@@ -962,6 +983,9 @@ fn gen_c07(r: &mut Rng, seed: u64) -> Scenario {
         if opts.size_limit.is_some() {
             tags.push("limit".into());
         }
+    }
+    if r.chance(1, 12) {
+        zombie_leader(r, &mut b, &mut opts, &mut tags);
     }
     let mut sc = simple_dump_scenario("C07", seed, "c07-memory-list", b, opts);
     reader_knob(r, &mut sc.faults, &mut tags);
@@ -1956,6 +1980,9 @@ fn gen_c08(r: &mut Rng, seed: u64) -> Scenario {
     }
     if r.chance(1, 6) {
         sc_force_file_fallback(&mut tags);
+    }
+    if r.chance(1, 12) {
+        zombie_leader(r, &mut b, &mut opts, &mut tags);
     }
     let mut sc = simple_dump_scenario("C08", seed, "c08-modules", b, opts);
     sc.tags = tags;
